@@ -577,6 +577,7 @@ def _node_representer(dumper, node):
             del metadata[f]
 
     metadata = { key: value for key, value in metadata.items() if key not in dumper.exclude_metadata }
+    child_metadata = { **parent_metadata, **metadata } # what this node hands down, including a flag written as a simple tag below
 
     # try to use simple standard tag rather then encoded metadata
     # this is possible if we only have one special thing to handle
@@ -602,7 +603,7 @@ def _node_representer(dumper, node):
 
     pop = False
     if isinstance(node, ComposedNode):
-        dumper.metadata.append({ **parent_metadata, **metadata })
+        dumper.metadata.append(child_metadata)
         pop = True
 
     try:
